@@ -28,6 +28,9 @@ func (in *Interp) expr(e ast.Expr) Value {
 		if x.Name == "false" {
 			return in.D.Bool(False)
 		}
+		if fn, ok := info.Uses[x].(*types.Func); ok && fn.Pkg() != nil && strings.HasPrefix(fn.Pkg().Path(), "github.com/brocaar/lorawan") {
+			return &FuncVal{Decl: fn}
+		}
 		return in.lvalue(x).V
 	case *ast.SelectorExpr:
 		if sel, ok := info.Selections[x]; ok && sel.Kind() == types.MethodVal {
@@ -119,7 +122,12 @@ func (in *Interp) expr(e ast.Expr) Value {
 		}
 		return dyn
 	case *ast.FuncLit:
-		in.fail(x, "function literal")
+		fr := in.fr()
+		env := map[types.Object]*Cell{}
+		for o, c := range fr.env {
+			env[o] = c
+		}
+		return &FuncVal{Lit: x, Env: env, Pkg: fr.pkg}
 	case *ast.BasicLit:
 		in.fail(x, "literal without constant value")
 	}
@@ -207,6 +215,20 @@ func (in *Interp) equal(l, r Value, at ast.Node) Node {
 		if _, ok := r.(NilVal); ok {
 			return in.D.M.Not(x.NonNil)
 		}
+		if y, ok := r.(*ErrVal); ok {
+			bothNil := in.D.M.And(in.D.M.Not(x.NonNil), in.D.M.Not(y.NonNil))
+			switch {
+			case x.Tag == "?" || y.Tag == "?":
+				in.fail(at, "comparison of errors whose identity depends on the path")
+			case x.Tag != "" && x.Tag == y.Tag:
+				return in.D.M.Or(bothNil, in.D.M.And(x.NonNil, y.NonNil)) // the same sentinel, or both nil
+			case x.Tag != "" && y.Tag != "":
+				return bothNil // two different sentinels
+			case x.Tag != "" || y.Tag != "":
+				// a sentinel against an error created while running (errors.New / fmt.Errorf / a wrapped error): different objects
+				return bothNil
+			}
+		}
 	case NilVal:
 		switch y := r.(type) {
 		case NilVal:
@@ -231,6 +253,10 @@ func (in *Interp) equal(l, r Value, at ast.Node) Node {
 			if x.Nil {
 				return True
 			}
+			return False
+		}
+	case *FuncVal, *MapVal:
+		if _, ok := r.(NilVal); ok {
 			return False
 		}
 	case *Iface:
@@ -272,7 +298,40 @@ func (in *Interp) equal(l, r Value, at ast.Node) Node {
 	return False
 }
 
+// mapLookup evaluates m[k]: the value (zero value when absent) and whether the key is present.
+func (in *Interp) mapLookup(x *ast.IndexExpr) (Value, bool, bool) {
+	mt, ok := in.info().TypeOf(x.X).Underlying().(*types.Map)
+	if !ok {
+		return nil, false, false
+	}
+	var base Value
+	if in.addressable(x.X) {
+		base = in.lvalue(x.X).V
+	} else {
+		base = in.expr(x.X)
+	}
+	kv := in.toType(in.expr(x.Index), in.info().TypeOf(x.Index), mt.Key())
+	switch m := base.(type) {
+	case NilVal:
+		return in.Zero(mt.Elem()), false, true
+	case *MapVal:
+		k, ok := in.mapKey(kv)
+		if !ok {
+			in.fail(x, "map lookup with a symbolic key")
+		}
+		if c := m.E[k]; c != nil && c.V != nil {
+			return c.V, true, true
+		}
+		return in.Zero(mt.Elem()), false, true
+	}
+	in.fail(x, "map lookup on %T", base)
+	return nil, false, true
+}
+
 func (in *Interp) index(x *ast.IndexExpr) Value {
+	if v, _, isMap := in.mapLookup(x); isMap {
+		return v
+	}
 	var base Value
 	if in.addressable(x.X) {
 		base = in.lvalue(x.X).V
@@ -461,6 +520,23 @@ func (in *Interp) compositeLit(x *ast.CompositeLit, t types.Type) Value {
 		return &Slice{Back: bk, Lo: 0, Hi: len(bk.E), Cap: len(bk.E), Elem: u.Elem()}
 	case *types.Pointer:
 		return &Ptr{To: &Cell{in.compositeLit(x, u.Elem())}, T: u.Elem()}
+	case *types.Map:
+		m := &MapVal{KT: u.Key(), VT: u.Elem(), E: map[string]*Cell{}}
+		for _, e := range x.Elts {
+			kv, ok := e.(*ast.KeyValueExpr)
+			if !ok {
+				in.fail(x, "map literal element without key")
+			}
+			k, ok := in.mapKey(in.toType(in.expr(kv.Key), info.TypeOf(kv.Key), u.Key()))
+			if !ok {
+				in.fail(kv.Key, "map literal key is not a constant")
+			}
+			if _, dup := m.E[k]; !dup {
+				m.Order = append(m.Order, k)
+			}
+			m.E[k] = &Cell{elt(kv.Value, u.Elem())}
+		}
+		return m
 	}
 	in.fail(x, "composite literal of type %s", t)
 	return nil
@@ -551,6 +627,11 @@ func (in *Interp) call(x *ast.CallExpr) Value {
 		if fn, ok := info.Uses[id].(*types.Func); ok {
 			return single(in.callResolved(fn, nil, nil, x))
 		}
+		if _, isVar := info.Uses[id].(*types.Var); isVar {
+			if fv, ok := in.expr(id).(*FuncVal); ok {
+				return single(in.callFuncVal(fv, x))
+			}
+		}
 		in.fail(x, "call of %s", id.Name)
 	}
 	if sel, ok := fun.(*ast.SelectorExpr); ok {
@@ -613,10 +694,19 @@ func (in *Interp) call(x *ast.CallExpr) Value {
 			return single(in.callResolved(fn, nil, nil, x))
 		}
 		// function-typed field or variable
+		if fv, ok := in.expr(fun).(*FuncVal); ok {
+			return single(in.callFuncVal(fv, x))
+		}
 		in.fail(x, "call through a function value")
 	}
 	if lit, ok := fun.(*ast.FuncLit); ok {
 		return single(in.callFuncLit(lit, in.args(x, info.TypeOf(lit).(*types.Signature))))
+	}
+	switch fun.(type) {
+	case *ast.IndexExpr, *ast.CallExpr:
+		if fv, ok := in.expr(fun).(*FuncVal); ok {
+			return single(in.callFuncVal(fv, x))
+		}
 	}
 	in.fail(x, "call form %T", fun)
 	return nil
@@ -700,10 +790,21 @@ func (in *Interp) builtin(name string, x *ast.CallExpr) Value {
 			}
 		case NilVal:
 			return in.D.Const(0, 64, true)
+		case *MapVal:
+			n := 0
+			for _, c := range b.E {
+				if c.V != nil {
+					n++
+				}
+			}
+			return in.D.Const(int64(n), 64, true)
 		}
 		in.fail(x, "%s of %T", name, v)
 	case "make":
 		t := info.TypeOf(x.Args[0])
+		if mt, isMap := t.Underlying().(*types.Map); isMap {
+			return &MapVal{KT: mt.Key(), VT: mt.Elem(), E: map[string]*Cell{}}
+		}
 		sl, ok := t.Underlying().(*types.Slice)
 		if !ok {
 			in.fail(x, "make of %s", t)
